@@ -1,4 +1,5 @@
 import Mkts.Proto
+import Mkts.Extracted.Facts
 import Mkts.Model.Store
 import Mkts.Model.VStore
 import Mkts.Model.Project
@@ -77,12 +78,9 @@ def parseTf (s : String) : Option Int :=
   | some n, "D" => some (n * 86400000000000)
   | _, _ => none
 
-/-- `utils.Timeframes` in source order; `QueryableTimeframe` scans it from the end and returns
-    the first entry dividing the duration. -/
-def catalogTimeframes : List (String × Int) :=
-  [("1Sec", 1000000000), ("10Sec", 10000000000), ("30Sec", 30000000000), ("1Min", 60000000000),
-   ("5Min", 300000000000), ("15Min", 900000000000), ("30Min", 1800000000000), ("1H", 3600000000000),
-   ("4H", 14400000000000), ("2H", 7200000000000), ("1D", 86400000000000)]
+/-- `utils.Timeframes` in source order — regenerated from /repo on every run (factgen `tables`);
+    `QueryableTimeframe` scans it from the end and returns the first entry dividing the duration. -/
+def catalogTimeframes : List (String × Int) := Mkts.Extracted.utils_Timeframes
 
 def queryableTimeframe (d : Int) : String :=
   match catalogTimeframes.reverse.find? (fun e => d % e.2 == 0) with
